@@ -50,7 +50,34 @@ def shared_preempt_items(rnd, big):
         for _ in range(1 if not big else 4):
             out.append({"kind": "preempt", "shared": True, "a": [[ver, esc(rnd.choice(pool))]], "b": [[ver, "-"]]})
         out.append({"kind": "preempt", "shared": True, "a": [[ver, esc(corpus.random_vector(rnd, ver)[3])]], "b": [[ver, "-"]]})
+        # ... and one user broken off at every line boundary by an exception from outside (Ctrl-C, a timeout), the object used again afterwards
+        out.append({"kind": "preempt", "shared": True, "abort": True, "a": [[ver, esc(rnd.choice(pool))]], "b": [[ver, "-"]]})
     return out
+
+
+def poison_items(rnd, big):
+    """every input first under a caller's decimal context of a few digits (not judged), then under the ordinary one (judged against a
+    recording without the first pass): all v2 / v3 base vectors, v3 and v2 environmental samples, the v4 lookup cover, RH strings, texts"""
+    import itertools
+    inputs = []
+    for combo in itertools.product(*[corpus.VALS["2"][m] for m in corpus.MAND["2"]]):
+        inputs.append(["2", "/".join("%s:%s" % mv for mv in zip(corpus.MAND["2"], combo))])
+    for minor in (0, 1):
+        for combo in itertools.product(*[corpus.VALS["3"][m] for m in corpus.MAND["3"]]):
+            inputs.append(["3", "CVSS:3.%d/" % minor + "/".join("%s:%s" % mv for mv in zip(corpus.MAND["3"], combo))])
+    for ver in "234":
+        for _ in range(400 if not big else 3000):
+            inputs.append([ver, corpus.random_vector(rnd, ver, p_opt=rnd.choice([0.3, 0.9]))[3]])
+        inputs += [[v_, s_] for v_, s_ in corpus.coverage_vectors() if v_ == ver]
+    for v_, s_ in vec_pool(rnd, 30):
+        inputs.append(["rh" + v_, "7.5/" + s_])
+        inputs.append(["text", "see %s and (%s)" % (s_, s_)])
+    inputs = [[v_, esc(s_)] for v_, s_ in inputs]
+    settings = [(p_, "ROUND_HALF_EVEN", False) for p_ in ((1, 2, 3, 4, 5, 6, 7, 9, 12, 20) if not big else range(1, 28))]
+    settings += [(6, rd, False) for rd in ROUNDINGS if rd != "ROUND_HALF_EVEN"] + [(28, "ROUND_HALF_EVEN", True), (6, "ROUND_HALF_EVEN", True)]
+    items = [{"kind": "poison", "prec": 0, "inputs": inputs}]
+    items += [{"kind": "poison", "prec": p_, "rounding": rd, "trap": tr, "inputs": inputs} for p_, rd, tr in settings]
+    return items
 
 
 def key_of(e, what):
@@ -159,6 +186,10 @@ def run(prop, tier, seed):
                             steps.append(["cli", [esc(a) for a in ["-%s" % v_] + (["-a"] if allm else []) + rnd.choice([[], ["-j"], ["-n"]])], False, answers])
                     else:
                         steps.append(["call", st[1] - 1, st[2]])
+                if len(items) % 4 == 1:
+                    # a call by a caller that works under a decimal context of a few digits is part of the history too (not judged itself)
+                    inner = rnd.choice([conc[1], conc[2], ["fromrh", ver, esc("7.5/" + s)], ["text", esc("see " + s)]])
+                    steps.insert(rnd.randrange(len(steps)), ["lowprec", rnd.choice([1, 3, 6, 6, 9, 15]), rnd.choice(ROUNDINGS), inner, rnd.random() < 0.2])
                 items.append({"kind": "history", "steps": steps, "handling": len(items) % 3 == 2})
             # ---- every metric once as the *only* difference between two consecutive inputs, both orders (a memo keyed by part of
             #      the input forgets exactly one of them) -------------------------------------------------------------------------
@@ -186,6 +217,22 @@ def run(prop, tier, seed):
                 rnd.shuffle(o)
                 probe.append(["text", esc("a %s b %s c %s." % (s, corpus.spell(ver, minor, g2), corpus.spell(ver, minor, g, o)))])
             probe += [["call", k, a] for k in range(5) for a in ("scores", "json_sm", "rh", "hash")]
+            # the entry points and the Red Hat notation under every configuration: builder for every version and mode, the calculator,
+            # score texts of every length around the true score (whatever the library decides for them, it decides it everywhere)
+            for ever in ("2", "3.0", "3.1", "4.0"):
+                for allm in (False, True):
+                    ms = corpus.ORDER[ever[0]] if allm else corpus.MAND[ever[0]]
+                    probe.append(["ask", ever, allm, [esc(rnd.choice(corpus.VALS[ever[0]][m])) for m in ms]])
+            for v_, s_ in vec_pool(rnd, 3):
+                probe.append(["cli", [esc(a) for a in ["-%s" % v_, "-v", s_, "-j"]], False, []])
+            rh_probe_vectors = vec_pool(rnd, 6)
+            rh_scores = record_events([{"op": "construct", "ver": v_, "s": esc(s_), "json": False} for v_, s_ in rh_probe_vectors], work, name="rhs")
+            for (v_, s_), e_ in zip(rh_probe_vectors, rh_scores):
+                sc = (e_.get("out") or {}).get("scores") or [0]
+                t_ = "%d.%d" % (sc[0] // 10, sc[0] % 10)
+                for lit in (t_, t_ + "0", t_ + "0" * 16 + "1", t_ + "0" * 27 + "1", t_ + "0" * 40 + "1", t_ + "0" * 27 + "9", "0" * 30 + t_,
+                            t_[:-1] + str((int(t_[-1]) + 9) % 10) + "9" * 30, t_ + "e0", t_.replace(".", "") + "e-1", " " + t_, t_ + "_0"):
+                    probe.append(["fromrh", v_, esc(lit + "/" + s_)])
             cfg_items = [{"kind": "config", "prec": p, "rounding": rd, "steps": probe} for p in (28, 29, 50, 100) for rd in ROUNDINGS]
             # ---- schedules ---------------------------------------------------------------------
             sch = gen(c, "schedules", "GenSystem schedules: every interleaving of two 6-step construction pipelines")
@@ -217,12 +264,26 @@ def run(prop, tier, seed):
             t_ = "see %s and %s (%s)." % (corpus.random_vector(rnd, "2")[3], corpus.random_vector(rnd, "3")[3], corpus.random_vector(rnd, "3")[3])
             pre_items.append({"kind": "preempt", "a": [["text", esc(t_)]], "b": [["text", esc(t_)]]})
             pre_items += shared_preempt_items(rnd, big)
+            # a call broken off at every line boundary by an exception from outside, the same input offered again afterwards
+            for va in "234":
+                pre_items.append({"kind": "preempt", "abort": True, "a": [[va, esc(corpus.random_vector(rnd, va)[3])]], "b": [[va, "-"]]})
+                pre_items[-1]["b"] = pre_items[-1]["a"]
+            pre_items.append({"kind": "preempt", "abort": True, "a": [["text", esc(t_)]], "b": [["text", esc(t_)]]})
             pre_items.append({"kind": "preempt", "a": [["text", esc(t_)]], "b": [["2", esc(corpus.random_vector(rnd, "2")[3])]]})
             pev = record_events(pre_items, work, name="pre", script="system.py", shards=len(pre_items))
             c.extra["preemption_points_explored"] = sum(e.get("points", 0) for e in pev)
             if c.extra["preemption_points_explored"] < 50 * len(pre_items):
                 raise MachineryError("line tracer saw only %d preemption points" % c.extra["preemption_points_explored"])
             ev += pev
+            # ---- histories that start under a caller's own decimal context (few digits, traps) ---------------------------------
+            pit = poison_items(rnd, big)
+            pz = record_events(pit, work, name="poi", script="system.py", shards=len(pit))
+            clean = dict((st["label"], (st["res"], st["exc"])) for st in pz[0]["steps"])
+            for e_ in pz:
+                for st in e_["steps"]:
+                    st["ref_local"] = list(clean[st["label"]])
+            c.extra["inputs_offered_again_after_a_low_precision_caller"] = sum(len(e_["steps"]) for e_ in pz[1:])
+            ev += pz[1:]
             c.extra["t_record_s"] = round(_t.time() - _t0, 1)
             # configured runs: one driver process per PYTHONHASHSEED
             cev = []
